@@ -90,6 +90,35 @@ def recv_case(rnd, host, nblocks_sizes, corrupt):
     return lit, {"intact": intact, "once": once, "messages": len(msgs), "delivered": delivered, "corrupt": corrupt}
 
 
+def recv_len_case(rnd, host, size, new_len):
+    """one single-block message whose LENGTH byte was changed in transit (to new_len); the rest of the block follows unchanged"""
+    rig = make_rig(host)
+    try:
+        msg = message(rnd, size, 300)
+        blk = bytearray(msg.blocks[0].encode())
+        old = blk[0]
+        blk[0] = new_len(old) % 256
+        if blk[0] == old:
+            blk[0] = (old + 1) % 256
+        chunks = [bytes([ENQ])]
+        rig.conn.feed(bytes([ENQ]))
+        if not rig.settle():
+            raise common.Wedged("no rest after ENQ")
+        for ch in chunked(rnd, bytes(blk)):
+            rig.conn.feed(ch)
+            chunks.append(ch)
+            rig.settle()
+        if not rig.settle():
+            raise common.Wedged("no rest after the block")
+        line = b"".join(rig.conn.sent)
+        delivered = len(rig.delivered)
+    finally:
+        rig.stop()
+    raised = blk[0] > old
+    lit = "(LRecvLen [" + ";".join(nl(c) for c in chunks) + "] " + nl(line) + f" {delivered}%nat {'true' if raised else 'false'})"
+    return lit, {"length_byte": f"{old} -> {blk[0]}", "answer": line.hex(), "delivered": delivered}
+
+
 def retry_case(rnd, host, size, bad_block, pos):
     """a multi-block message of which block `bad_block` arrives damaged (NAK, the sender's call fails), then the sender's next
     attempt - the same blocks, same system bytes - arrives undamaged: every block of it is acknowledged, so it must arrive intact, once"""
@@ -194,6 +223,9 @@ def gen_cases(rnd, tier):
     for host, size, script in [(False, 10, [4]), (True, 10, [0]), (False, 300, ["ack", 5]), (True, 0, ["nak"]), (False, 244, ["ack"])]:
         cases.append(("send", host, size, script))
     cases.append(("send", False, 500, ["ack", "ack", "ack"]))
+    # the length byte itself changed in transit: raised by 1 / 5 / to 255, lowered by 1 / 5 / to 0 / to 3 (below a header)
+    for k, f in enumerate([lambda o: o + 1, lambda o: o + 5, lambda o: 255, lambda o: o - 1, lambda o: o - 5, lambda o: 0, lambda o: 3]):
+        cases.append(("recvlen", k % 2 == 0, [0, 20, 100][k % 3], f))
     return cases
 
 
@@ -221,7 +253,8 @@ def evaluate(lits, prefix, shard=40):
     return bad, {"skipped_unmodelled": skipped, "spec_checked": checked, "eval_errors": errors, "observed": len(lits)}
 
 
-SPEC_CODES = {31: "a block with a wrong checksum was not answered with exactly EOT, NAK / was delivered", 32: "valid announced blocks were not each answered with EOT and ACK and delivered once",
+SPEC_CODES = {39: "a block whose length byte was changed in transit was not answered with exactly EOT, NAK", 40: "a block whose length byte was changed in transit was delivered",
+              31: "a block with a wrong checksum was not answered with exactly EOT, NAK / was delivered", 32: "valid announced blocks were not each answered with EOT and ACK and delivered once",
               33: "send_message reported success although a block was not acknowledged / the line dialog is not ENQ, block per block", 34: "send_message reported failure although every block was acknowledged"}
 MODEL_CODES = {12: "model and implementation put different bytes on the line", 13: "model and implementation deliver a different number of blocks",
                14: "model and implementation send different bytes", 15: "model and implementation report a different send result"}
@@ -245,7 +278,8 @@ def run(tier, replay=None):
     cases = gen_cases(rnd, tier)
     wedged, kept, lits, raws = [], [], [], []
     for c in cases:
-        r = common.guarded(lambda c=c: (recv_case(rnd, c[1], c[2], c[3]) if c[0] == "recv" else send_case(rnd, c[1], c[2], c[3])), repr(c), wedged, 30.0)
+        r = common.guarded(lambda c=c: (recv_case(rnd, c[1], c[2], c[3]) if c[0] == "recv" else recv_len_case(rnd, c[1], c[2], c[3]) if c[0] == "recvlen" else send_case(rnd, c[1], c[2], c[3])),
+                           repr(c[:3]), wedged, 30.0)
         if r is not None:
             kept.append(c)
             lits.append(r[0])
@@ -273,11 +307,17 @@ def run(tier, replay=None):
     spec_bad = [(i, m, sc) for i, m, sc in bad if sc >= 30]
     model_bad = [(i, m, sc) for i, m, sc in bad if m >= 10 and sc < 30]
     reported = set()
+    known = {e["id"]: e for e in common.known_findings("C17") if e.get("status") == "open"}
+    seen_known = [i for i, m, sc in spec_bad if sc == 39 and "C17-length-byte" in known]
+    if seen_known:
+        report.known(f"C17-length-byte: {known['C17-length-byte']['text']} ({len(seen_known)} blocks of this run, e.g. {raws[seen_known[0]]})")
+    spec_bad = [t for t in spec_bad if not (t[2] == 39 and "C17-length-byte" in known)]
+    model_bad = [t for t in model_bad if t[0] not in seen_known]
     for i, m, sc in spec_bad:
         if sc in reported:
             continue
         reported.add(sc)
-        report.violation({"kind": "counterexample", "what": SPEC_CODES.get(sc, str(sc)), "case": repr(cases[i]), "observed_case": lits[i][:3000], "model_code": m,
+        report.violation({"kind": "counterexample", "what": SPEC_CODES.get(sc, str(sc)), "case": repr(cases[i][:3]), "observed_case": lits[i][:3000], "model_code": m,
                           "broken_obligation": proof.get("broken")}, True, tag=f"spec{sc}")
     if not report.violations:
         if model_bad:
@@ -292,7 +332,7 @@ def run(tier, replay=None):
     cov["evaluations"] = len(lits)
     cov["distinct_nontrivial"] = len(set(lits))
     cov["rule"] = ("a real SecsIProtocol (host and equipment device type) on an in-memory line: (receive) 1-3 messages of 0-500 bytes, each block announced by ENQ and fed in random chunks "
-                   "(1 to 1000 bytes), optionally with one byte behind the length byte changed; observed: the bytes the endpoint puts on the line, delivered messages (identical, once); "
+                   "(1 to 1000 bytes), optionally with one byte behind the length byte changed, or the length byte itself raised / lowered; observed: the bytes the endpoint puts on the line, delivered messages (identical, once); "
                    "(send) messages of 1-3 blocks sent from an application thread, the peer answering ENQ and each block with EOT/ACK, NAK or another byte; observed: the bytes sent and the result")
     cov["correspondence"] = {k: v for k, v in stats.items() if k != "eval_errors"}
     cov["distribution"] = {"kinds": dict(Counter(c[0] + ("-corrupt" if c[0] == "recv" and c[3] is not None else "") for c in cases)), "device": dict(Counter("host" if c[1] else "equipment" for c in cases))}
